@@ -92,6 +92,7 @@ func c13(c *Ctx) {
 		c.check(q.bypass() == nil, r, fnName(f)+":closed-tx-refused", c.pos(f.Pos()), "store commit is dominated by closed==false", "a cancelled or already committed transaction can be committed")
 		c.ruleOrder(r, f, "closed=true", storeTo("OngoingTx.closed"), "st.commit", callTo(storeT+"commit"), nil, 1)
 	}
+	c13DeletionMarksEveryIndex(c, "C13.14/in-transaction-deletion-marks-every-index")
 	c13IndexKeySlots(c, "C13.13/index-key-parts-are-filled-in-place")
 	c13OnlyCommittedReported(c, "C13.12/only-committed-transactions-are-reported")
 	c13PgDescribeDoesNotExecute(c, "C13.11/pgsql-describe-does-not-execute")
@@ -736,4 +737,31 @@ func c13IndexKeySlots(c *Ctx, r string) {
 	if n < 3 {
 		c.undecided(r, "floor", fmt.Sprintf("%d keys assembled from parts found (doUpsert, deprecateIndexEntries, deleteIndexEntries confirmed by hand)", n))
 	}
+}
+
+// c13DeletionMarksEveryIndex: a row deleted inside a transaction is hidden from the transaction's later statements by
+// deletion markers written at the row's own keys: the row entry (primary index) AND its entry in every secondary index
+// (the indexer tombstones those only after the commit). deleteIndexEntries writes both kinds.
+func c13DeletionMarksEveryIndex(c *Ctx, r string) {
+	f := c.mustFn(r, "embedded/sql.(*SQLTx).deleteIndexEntries")
+	if f == nil {
+		return
+	}
+	kinds := map[string]bool{}
+	for _, in := range sites(f, callTo(sqlTxT+"set")) {
+		args := callOf(in).Args
+		if len(args) < 2 {
+			continue
+		}
+		for _, pfx := range []string{"R.", "M."} {
+			if dependsOn(args[1], func(v ssa.Value) bool {
+				k, ok := v.(*ssa.Const)
+				return ok && k.Value != nil && k.Value.Kind() == constant.String && constant.StringVal(k.Value) == pfx
+			}) {
+				kinds[pfx] = true
+			}
+		}
+	}
+	c.check(kinds["R."], r, fnName(f)+":row-entry-marked", c.pos(f.Pos()), "a deletion marker is written at the row's key", "DELETE no longer writes a deletion marker at the row's key")
+	c.check(kinds["M."], r, fnName(f)+":secondary-index-entries-marked", c.pos(f.Pos()), "a deletion marker is written at the row's key in every secondary index", "DELETE writes no deletion marker at the keys of the row in the secondary indexes: a scan through such an index by the same transaction still returns the deleted row")
 }
